@@ -36,6 +36,12 @@ def m_systime_since(P, c, args, dt):
     return ok(Opaque('Duration', 0))
 
 
+@pattern(r'std::time::Duration::(from_millis|from_secs|from_micros|from_nanos|new)$')
+def m_duration_from(P, c, args, dt):
+    """a Duration is only ever handed to sleep / compared against elapsed time (which the clock model fixes at 0)"""
+    return Opaque('Duration', 0)
+
+
 @pattern(r'std::time::Duration::(as_millis|as_secs|as_micros|as_nanos|as_secs_f64|subsec_millis)$')
 def m_duration_as(P, c, args, dt):
     d = tgt(args[0])
